@@ -3,9 +3,7 @@
 # SPDX-License-Identifier: Apache-2.0
 
 import asyncio
-import errno
 import struct
-import sys
 from dataclasses import dataclass
 from enum import IntEnum
 from typing import Any, Self
@@ -185,6 +183,9 @@ class HSFZConnection:
             logger.debug(f"read worker received EOF: {e}")
         except Exception as e:
             logger.critical(f"read worker died: {e}")
+        finally:
+            # Nothing will arrive anymore: wake up a consumer which is blocked on the queue.
+            self._read_queue.put_nowait(HSFZStatus.UNDEFINED)
 
     async def _unpack_frame(self, frame: HSFZDiagFrame | int) -> HSFZDiagFrame:
         # I little hack, but it is either a tuple or an int….
@@ -193,16 +194,15 @@ class HSFZConnection:
                 return frame
             case int():
                 await self.close()
+                if frame == HSFZStatus.UNDEFINED:
+                    raise BrokenPipeError("connection lost")
                 raise BrokenPipeError(f"I can't even: {HSFZStatus(frame).name}")
             case _:
                 raise RuntimeError(f"unexpected frame: {frame}")
 
     async def read_frame(self) -> HSFZDiagFrame | int:
         if self._closed:
-            if sys.platform != "win32":
-                raise OSError(errno.EBADFD)
-            else:
-                raise RuntimeError("connection already closed")
+            raise BrokenPipeError("connection already closed")
 
         return await self._read_queue.get()
 
